@@ -787,6 +787,23 @@ func streamCont(o *Out, r *rand.Rand, n int, thorough bool) {
 		{"t = make([]int64, 3)\nt[0] = 1\nt[1] = 2\nt[0], t[1] = t[1], t[0]\nt", "[]int64[int64:2 int64:1 int64:0]"},
 		{"t = make([]int64, 2)\nt[0] = 7\nr = []\nfor v in t {\nt[0] = 9\nt[1] = 9\nr += v\n}\nr", "[]iface[int64:7 int64:9]"},
 		{"x = make(S)\nx.A = 1\nv = x.A\nx.A = 3\n[v, x.A]", "[]iface[int64:1 int64:3]"},
+		// the same literal evaluated again is a new list: stores into an earlier result do not show
+		{"func fresh() { return [0, 0, 0] }\na = fresh()\na[0] = 7\nb = fresh()\nb[1] = 8\n[a, b, fresh()]", "[]iface[[]iface[int64:7 int64:0 int64:0] []iface[int64:0 int64:8 int64:0] []iface[int64:0 int64:0 int64:0]]"},
+		{"rows = []\nfor i = 0; i < 3; i++ {\nr = [0, 0, 0]\nr[i] = 1\nrows += [r]\n}\nrows", "[]iface[[]iface[int64:1 int64:0 int64:0] []iface[int64:0 int64:1 int64:0] []iface[int64:0 int64:0 int64:1]]"},
+		{"func mk() { return {\"k\": 0} }\na = mk()\na.k = 5\n[a.k, mk().k]", "[]iface[int64:5 int64:0]"},
+		{"func s() { return \"ab\" }\na = s()\na[0] = \"X\"\n[a, s()]", "[]iface[string:" + hexOf("Xb") + " string:" + hexOf("ab") + "]"},
+		// the left operand of an operator is a value: the right operand cannot change it any more
+		{"b = make([]int64, 1)\nb[0] = 1\nfunc bump() { b[0] = 10; return 0 }\nb[0] + bump()", "int64:1"},
+		{"b = make([]int64, 1)\nb[0] = 1\nfunc bump() { b[0] = 10; return 5 }\n[b[0] * bump(), b[0]]", "[]iface[int64:5 int64:10]"},
+		{"b = make([]int64, 1)\nb[0] = 1\nfunc bump() { b[0] = 10; return 10 }\n[b[0] == bump(), b[0] < bump()]", "[]iface[bool:false bool:false]"},
+		{"b = make([]string, 1)\nb[0] = \"a\"\nfunc bump() { b[0] = \"z\"; return [\"z\"] }\nb[0] in bump()", "bool:false"},
+		{"x = make(S)\nx.A = 1\nfunc bump() { x.A = 10; return 0 }\nx.A + bump()", "int64:1"},
+		// a struct value whose interface field holds something unhashable is no map key
+		{"k = make(struct{Tag interface, N int64})\nk.Tag = [1, 2]\nm = {}\nm[k]", "nil"},
+		{"k = make(struct{Tag interface, N int64})\nk.Tag = [1, 2]\nm = {}\nm[k] = 2", "ERROR"},
+		{"k = make(struct{Tag interface, N int64})\nk.Tag = {}\nm = {\"a\": 1}\ndelete(m, k)", "ERROR"},
+		{"k = make(struct{Tag interface, N int64})\nk.Tag = [1]\nt = make(map[interface]int64)\nt[k] = 2", "ERROR"},
+		{"k = make(struct{Tag interface, N int64})\nk.Tag = 5\nm = {}\nm[k] = 2\nm[k]", "int64:2"},
 		// slots whose values are themselves references (slices, maps): a binding holds the value the slot had, not the slot
 		{"a = make([][]int64, 2)\na[0] = [1, 2]\nx = a[0]\na[0] = [7, 8, 9]\n[len(x), x[0]]", "[]iface[int64:2 int64:1]"},
 		{"b = make([][]int64, 2)\nb[0] = [1]\nb[1] = [2, 2]\nb[0], b[1] = b[1], b[0]\n[len(b[0]), len(b[1])]", "[]iface[int64:2 int64:1]"},
